@@ -27,7 +27,11 @@ CONSTANTS
   TenRanges <- P_TRng
   TenDamps <- P_TDamp
   TenArms <- D_TArm
+  TenZero <- NoTz
+  SpPairs <- NoSpS
+  SpArms <- One0
   Level = 3
+  Tie = FALSE
   Rand = TRUE
 INVARIANT TypeOK
 INVARIANT SpringIsMinusGradient
